@@ -340,6 +340,15 @@ fn cache_case(seed: u64, idx: usize, out: &mut Out) {
         // large-magnitude queries (regression guard for saturating quantisation)
         pool.push(base.iter().map(|x| x * 50.0 + 3.0).collect());
         pool.push(base.iter().map(|x| x * 70.0 + 4.0).collect());
+        // pairs of distinct queries with the same signs at magnitudes spanning the float range: any
+        // saturating / truncating quantisation in the query key makes such a pair collide
+        let m = [1e3f32, 7e4, 1e5, 3e6, 1e9, 1e15][rng.usize_below(6)];
+        let big: Vec<f32> = base.iter().map(|x| if *x < 0.0 { -m * (1.0 + x.abs()) } else { m * (1.0 + x.abs()) }).collect();
+        let mut big2 = big.clone();
+        let c = rng.usize_below(big2.len());
+        big2[c] *= 2.5;
+        pool.push(big);
+        pool.push(big2);
     }
     let mut entries: Vec<RefEntry> = Vec::new();
     let mut history: Vec<Value> = Vec::new();
